@@ -216,9 +216,12 @@ def run_sched(case):
         return (tuple((f, elem.size(f), elem.byte_size(f)) for f in flows), elem.total_packets,
                 w.plabel.get(cur) if cur is not None and not isinstance(cur, tuple) else (None if cur is None else '?'),
                 tuple(sorted((c, v) for c, v in getattr(elem, 'deficit', {}).items())) if case['kind'] == 'DRR' else None)
-    s.out = OutTap(w, 's', s, Recorder(w, 'sink'), post=counters)
-    if case.get('no_out'):
-        s.out = None          # nothing attached downstream: transmitted packets are simply gone
+    if case.get('no_out') == 'never':
+        pass                  # nothing is ever attached downstream (the attribute is not even assigned)
+    elif case.get('no_out'):
+        s.out = None          # explicitly nothing: transmitted packets are simply gone
+    else:
+        s.out = OutTap(w, 's', s, Recorder(w, 'sink'), post=counters)
     start_injector(w, InTap(w, 's', s, post=counters), [tuple(x) for x in case.get('workload', [])])
     if case.get('shadow'):
         sh = dict(case)
